@@ -80,8 +80,30 @@ func (C16) Generate(r *rand.Rand, tier string, idx int) *drv.Scenario {
 				op.S = []string{pick(r, njFields)}
 			}
 			steps = append(steps, op)
-		case x < 58:
+		case x < 56:
 			steps = append(steps, drv.Op{Op: "njdel", N: int64(pick(r, njIDs))})
+		case x < 58:
+			// 2-3 clients update ONE annotation at the same time; then the two read paths are compared at once
+			id := pick(r, njIDs)
+			var sub []drv.Op
+			for c := 0; c < 2+r.IntN(2); c++ {
+				cl := fmt.Sprintf("c%d", c+1)
+				if r.IntN(5) == 0 {
+					sub = append(sub, drv.Op{Op: "njdel", C: cl, N: int64(id)})
+					continue
+				}
+				body := map[string]interface{}{"bodyid": id}
+				for k := 0; k < 1+r.IntN(2); k++ {
+					f := pick(r, njFields)
+					body[f] = njValue(r, f)
+				}
+				o := drv.Op{Op: "njpost", C: cl, N: int64(id), U: pick(r, []string{"alice", "bob"}), J: jsonBody(body)}
+				if r.IntN(3) == 0 {
+					o.Mode = "replace"
+				}
+				sub = append(sub, o)
+			}
+			steps = append(steps, drv.Op{Op: "njpar", N: int64(id), Sub: sub}, drv.Op{Op: "njpair"})
 		case x < 64:
 			id1, id2 := pick(r, njIDs), pick(r, njIDs)
 			steps = append(steps, drv.Op{Op: "njkvs", U: pick(r, []string{"alice", "bob"}), L: []uint64{uint64(id1), uint64(id2)},
@@ -173,6 +195,9 @@ func (c C16) Execute(sc *drv.Scenario, w *drv.World) (*drv.Violation, error) {
 		case "njschema":
 			e.dirty = true
 			_, _, err = w.HTTP("POST", e.base(e.head)+"/"+op.T, []byte(op.Val))
+		case "njpar":
+			e.dirty = true
+			v, err = c.par(e, op)
 		case "njpair":
 			v, err = c.pair(e)
 		case "njrestart":
@@ -343,6 +368,100 @@ func (c C16) del(e *njExec, op drv.Op) (*drv.Violation, error) {
 		e.w.Stats.Probe("nj-delete")
 	}
 	return c.checkID(e, int(op.N), "after DELETE")
+}
+
+// par: concurrent updates of one annotation.  Every acknowledged request must have taken effect as a whole:
+// the annotation afterwards is what SOME sequential order of the acknowledged requests produces (C11).
+func (c C16) par(e *njExec, op drv.Op) (*drv.Violation, error) {
+	id := int(op.N)
+	now := fakeNow(e.w)
+	var reqs []proto.Req
+	for _, s := range op.Sub {
+		rq := proto.Req{Client: s.C, Kind: "http"}
+		if s.Op == "njdel" {
+			rq.Method, rq.URL = "DELETE", fmt.Sprintf("%s/key/%d", e.base(e.head), id)
+		} else {
+			rq.Method, rq.URL, rq.Body = "POST", fmt.Sprintf("%s/key/%d?u=%s", e.base(e.head), id, s.U), s.J
+			if s.Mode == "replace" {
+				rq.URL += "&replace=true"
+			}
+		}
+		reqs = append(reqs, rq)
+	}
+	res, err := e.w.Batch(reqs, "barrier")
+	if err != nil {
+		return nil, err
+	}
+	if res.Wedged {
+		return nil, e.w.ClassifyWedge("concurrent neuron-annotation updates of one key\n"+descReqs(reqs), res.Stacks)
+	}
+	var acked []drv.Op
+	for j, s := range op.Sub {
+		if res.Resps[j].Status == 200 {
+			acked = append(acked, s)
+		}
+	}
+	e.w.Stats.Probe("nj-concurrent-batch")
+	if len(acked) == 0 {
+		return c.checkID(e, id, "after a refused concurrent batch")
+	}
+	saved, had := e.model[id]
+	apply := func(order []int) (map[string]interface{}, bool) {
+		cur, exists := saved, had
+		for _, j := range order {
+			s := acked[j]
+			if s.Op == "njdel" {
+				cur, exists = nil, false
+				continue
+			}
+			postedI, _ := parseJSON(s.J)
+			cur = applyRules(cur, postedI.(map[string]interface{}), s.U, now, s.Mode == "replace", nil)
+			exists = true
+		}
+		return cur, exists
+	}
+	var orders [][]int
+	var perm func(pre []int, used int)
+	perm = func(pre []int, used int) {
+		if len(pre) == len(acked) {
+			orders = append(orders, append([]int(nil), pre...))
+			return
+		}
+		for j := range acked {
+			if used&(1<<j) == 0 {
+				perm(append(pre, j), used|1<<j)
+			}
+		}
+	}
+	perm(nil, 0)
+	var first *drv.Violation
+	var tried strings.Builder
+	for _, o := range orders {
+		cand, exists := apply(o)
+		if exists {
+			e.model[id] = cand
+		} else {
+			delete(e.model, id)
+		}
+		v, err := c.checkID(e, id, "after a concurrent batch")
+		if err != nil {
+			return nil, err
+		}
+		if v == nil {
+			return nil, nil
+		}
+		if first == nil {
+			first = v
+		}
+		fmt.Fprintf(&tried, "order %v: %s | %s\n", o, v.Sig, strings.ReplaceAll(v.Detail, "\n", " ; "))
+	}
+	if had {
+		e.model[id] = saved
+	} else {
+		delete(e.model, id)
+	}
+	return &drv.Violation{Prop: "C11", Oracle: "nj-concurrent-updates", Sig: "concurrent neuron-annotation updates: the result is no sequential order of the acknowledged requests",
+		Detail: "batch:\n" + descReqs(reqs) + "\nstate before: " + canon(saved) + "\nfirst candidate order fails with: " + first.Sig + "\n" + first.Detail + "\nall orders of the acknowledged requests:\n" + tried.String()}, nil
 }
 
 // checkID compares GET key/<id>?show=all on the head with the merge-rule model.
